@@ -25,6 +25,10 @@ RULE = ("cases drawn from one PRNG (VERIF_SEED), one fresh file each; files hold
         "more than ten dimension variables (fakeDim1 vs fakeDim10 ...); every DFSD read is repeated into a caller's array "
         "that is larger than the dataset by 0-3 in each dimension, through DFSDgetdata(maxsizes) | DFSDgetslice | "
         "DFSDreadslab, and every DFR8getimage into a larger xdim/ydim: same values at the array's strides, rest untouched; "
+        "(dfsdseq) sessions of the single-file SDS writer given call by call - DFSDsetdims (new or the same), DFSDsetNT, "
+        "DFSDsetdimscale (a scale or NULL), DFSDsetdatastrs, DFSDsetdimstrs, DFSDsetrange, DFSDadddata, DFSDclear - with no "
+        "reset the sequence does not contain, steered towards set/write/remove/write and set/write/write; the raster "
+        "writers likewise call DFR8setpalette / DF24setil only when the setting in effect changes; "
         "(sds) 1-6 datasets of rank 1-4, extents 1-5, "
         "every 8/16/32-bit integer, char and float32/64 type in standard, little-endian and native flavour, optional "
         "unlimited first dimension, written by DFSDadddata | SDcreate+SDwritedata | nccreate/ncdimdef/ncvardef/ncvarput "
@@ -252,20 +256,34 @@ def gen_rawimg(r):
 
 def gen_dfsdseq(r):
     """a session of the single-file SDS writer: settings stay in effect between datasets unless a call changes them;
-    no reset is issued that the sequence does not contain"""
+    no reset is issued that the sequence does not contain.  A light shadow (which dimensions have a scale) only steers
+    the generator towards 'set, write, remove, write' and 'set, write, write' motifs."""
     ops = []
     dims, nt = None, None
+    scaled = set()
 
     def setdims():
         nonlocal dims
         rank = r.choice([1, 2, 2, 3])
-        dims = [r.choice([1, 2, 3, 4]) for _ in range(rank)]
+        nd = [r.choice([1, 2, 3, 4]) for _ in range(rank)]
+        if nd != dims:
+            scaled.clear()
+        dims = nd
         ops.append(["D", str(rank)] + [str(x) for x in dims])
 
     def setnt():
         nonlocal nt
-        nt = r.choice(list(BASES)) | r.choice([0, 0, 0, 0x4000])
+        n2 = r.choice(list(BASES)) | r.choice([0, 0, 0, 0x4000])
+        if n2 != nt:
+            scaled.clear()
+        nt = n2
         ops.append(["N", str(nt)])
+
+    def add():
+        ne = 1
+        for x in dims:
+            ne *= x
+        ops.append(["A", hexs(rbytes(r, ne * BASES[nt & 255]))])
     setdims()
     setnt()
     hs = lambda b: hexs(b) if b else "_"
@@ -276,8 +294,12 @@ def gen_dfsdseq(r):
         wd = BASES[nt & 255]
         if a < 0.30:
             d = r.randrange(len(dims))
-            # set a scale, or remove it again (NULL)
-            ops.append(["S", str(d), hexs(rbytes(r, dims[d] * wd)) if r.random() < 0.6 else "-"])
+            if r.random() < 0.65:
+                ops.append(["S", str(d), hexs(rbytes(r, dims[d] * wd))])
+                scaled.add(d)
+            else:
+                ops.append(["S", str(d), "-"])       # NULL: remove the scale
+                scaled.discard(d)
         elif a < 0.40:
             ops.append(["T", hs(rstr(r)), hs(rstr(r) if r.random() < 0.7 else []), hs(rstr(r) if r.random() < 0.7 else [])])
         elif a < 0.50:
@@ -293,14 +315,24 @@ def gen_dfsdseq(r):
             setnt()
         elif a < 0.69:
             ops.append(["C"])
+            scaled.clear()
+            dims = None
             setdims()
+            nt = None
             setnt()
         else:
-            ne = 1
-            for x in dims:
-                ne *= x
-            ops.append(["A", hexs(rbytes(r, ne * wd))])
+            add()
             nadd += 1
+            if scaled and r.random() < 0.5:
+                # a written dataset had scales: remove one (or keep all) and write the next dataset right away
+                if r.random() < 0.7:
+                    d = r.choice(sorted(scaled))
+                    ops.append(["S", str(d), "-"])
+                    scaled.discard(d)
+                if r.random() < 0.3:
+                    ops.append(["D", str(len(dims))] + [str(x) for x in dims])
+                add()
+                nadd += 1
     return {"kind": "dfsdseq", "w": "dfsd", "ops": ops}
 
 
@@ -839,7 +871,7 @@ def run(ctx):
         cases.append(("p%d" % i, gen_pal(r)))
     for i in range(40 * nq):
         cases.append(("a%d" % i, gen_ann(r)))
-    for i in range(40 * nq):
+    for i in range(60 * nq):
         cases.append(("q%d" % i, gen_dfsdseq(r)))
     for i in range(25 * nq):
         cases.append(("rs%d" % i, gen_rawsds(r)))
@@ -856,7 +888,9 @@ def run(ctx):
              "gr_files_with_group_less_image_before_group_image": 0, "objects_per_file": {},
              "dimensions_with_strings": 0, "named_dimensions": 0, "files_with_prefix_related_dimension_names": 0,
              "files_with_more_than_ten_dimension_variables": 0, "reads_into_larger_array": {"DFSDgetdata": 0, "DFSDgetslice": 0,
-             "DFSDreadslab": 0, "DFR8getimage": 0}, "larger_in_non_leading_dimension": 0}
+             "DFSDreadslab": 0, "DFR8getimage": 0}, "larger_in_non_leading_dimension": 0,
+             "writer_sessions": 0, "session_ops": {}, "sessions_scale_removed_between_datasets": 0,
+             "sessions_scale_kept_between_datasets": 0, "lazy_raster_writers": 0}
     nviol = 0
     for cid, c in cases:
         R, S = Rd.get(cid, []), Sd.get(cid, [])
@@ -890,8 +924,27 @@ def run(ctx):
                 stats["reads_into_larger_array"][("DFSDgetdata", "DFSDgetslice", "DFSDreadslab", "DFSDgetdata")[(c["pad"] >> 12) & 3]] += 1
                 if any(((c["pad"] >> (2 * i)) & 3) and i < len(o["dims"]) for o in c["objs"] for i in range(1, 4)):
                     stats["larger_in_non_leading_dimension"] += 1
-        if k == "img" and c.get("pad"):
+        if k == "img" and c.get("pad", 0) & 15:
             stats["reads_into_larger_array"]["DFR8getimage"] += 1
+        if k == "img" and (c.get("pad", 0) >> 14) & 1:
+            stats["lazy_raster_writers"] += 1
+        if k == "dfsdseq":
+            stats["writer_sessions"] += 1
+            have, wrote, rem, kept = set(), False, False, False
+            for o in c["ops"]:
+                stats["session_ops"][o[0]] = stats["session_ops"].get(o[0], 0) + 1
+                if o[0] == "S" and o[2] != "-":
+                    have.add(o[1])
+                elif o[0] == "S":
+                    rem = rem or (wrote and o[1] in have)
+                    have.discard(o[1])
+                elif o[0] == "A":
+                    kept = kept or (wrote and bool(have))
+                    wrote = bool(have)
+                elif o[0] in ("C", "N") or o[0] == "D":
+                    pass
+            stats["sessions_scale_removed_between_datasets"] += 1 if rem else 0
+            stats["sessions_scale_kept_between_datasets"] += 1 if kept else 0
         stats["metadata_lines_compared"] += sum(1 for l in R if l.startswith(("sdmeta ", "dfsdmeta ")))
         for o in c.get("objs", []):
             if k in ("sds", "rawsds") and o.get("scales"):
